@@ -123,7 +123,34 @@ impl IntVal {
     pub fn gen(rng: &mut Rng, ty: IntTy) -> IntVal {
         let neg = ty.signed() && rng.chance(1, 2);
         let lim = if neg { ty.min_mag() } else { ty.max_mag() };
-        let mag = match rng.below(12) {
+        let mag = match rng.below(14) {
+            12 => {
+                // digit patterns where carries and digit-group arithmetic go wrong: a random head
+                // followed by a run of 9s or 0s (…9999, …0000), within the type's range
+                let run = 1 + rng.below(9) as u32;
+                let p = 10u128.pow(run);
+                let head = rng.next_u128() % (lim / p + 1);
+                let tail = if rng.chance(1, 2) { p - 1 } else { 0 };
+                (head * p).saturating_add(tail).min(lim)
+            }
+            13 => {
+                // d * 10^k and its neighbours for a random leading digit d
+                let mut p: u128 = 1;
+                let k = rng.below(39);
+                for _ in 0..k {
+                    if p > lim / 10 {
+                        break;
+                    }
+                    p *= 10;
+                }
+                let d = 1 + rng.below(9) as u128;
+                let base = p.saturating_mul(d).min(lim);
+                match rng.below(3) {
+                    0 => base.saturating_sub(1),
+                    1 => base,
+                    _ => base.saturating_add(1).min(lim),
+                }
+            }
             0 => 0,
             1 => lim,
             2 => lim - 1.min(lim),
